@@ -6,7 +6,7 @@ from .rhist import T0, T1, Alphabet, decode, max_options, run_history
 
 ALPHA = Alphabet(
     max_ctx=3,
-    add=[((T0,), "a", "ok"), ((T0, T1), "a", "ok"), ((T1, T0), "a", "badname"), ((T1,), "a", "none"), ((T1,), "a", "badcb0")],
+    add=[((T0,), "a", "ok"), ((T0, T1), "a", "ok"), ((T1, T0), "a", "badname"), ((T1,), "a", "none"), ((T1,), "a", "badcb0"), ((T0, T1), "a", "same")],
     fac=[((T0,), "a", False, "ok"), ((T1, T0), "a", True, "ok"), ((T1,), "a", False, "nonetype")],
     look=[(T0, "a", "nowait"), (T1, "a", "await"), (T0, "a", "inject_async")],
     drop=True,
@@ -302,8 +302,17 @@ def kcomp_fn(a, tier):
     d = (lambda text: text) if desc else (lambda text: None)
     events = []
     made = object()
+    got_app = []
+
+    app_made = object()
 
     async def publish():
+        await settle()
+        # first, an OPTIONAL lookup of a resource whose factory the application registered before the tree was started: generated in, and
+        # announced on, the application context
+        from asphalt.core import get_resource
+
+        got_app.append(await get_resource(T0, "appfac", optional=True))
         await settle()
         add_resource(object(), types=[T0], description=d("the default-named one"))
         await settle()
@@ -334,9 +343,15 @@ def kcomp_fn(a, tier):
                         events.append((tuple(ev.resource_types), ev.resource_name, ev.resource_description, ev.is_factory))
 
             await tg.start(listen)
+            await settle()
+            ctx.add_resource_factory(lambda: app_made, "appfac", types=[T0], description=d("registered by the application"))
+            await settle()
             await start_component(Top, {}, timeout=None)
             await settle()
             got = ctx.get_resource_nowait(T1, "fac")
+            again = ctx.get_resource_nowait(T0, "appfac")  # a mere lookup of what the component already generated: no event
+            if again is not app_made or got_app != [app_made]:
+                events.append("wrong product of the application's factory")
             await anyio.wait_all_tasks_blocked()
             tg.cancel_scope.cancel()
             if got is not made:
@@ -347,7 +362,8 @@ def kcomp_fn(a, tier):
     if exc is not None:
         return FAIL(f"kcomp:raised:{type(exc).__name__}", repr(exc), summary)
     default_name = "special" if (slash and phase == 1) else "default"
-    exp = [((T0,), default_name, d("the default-named one"), False), ((T1, T0), "named", d("two types, explicit name"), False),
+    exp = [((T0,), "appfac", d("registered by the application"), True), ((T0,), "appfac", d("registered by the application"), False),
+           ((T0,), default_name, d("the default-named one"), False), ((T1, T0), "named", d("two types, explicit name"), False),
            ((T1,), "fac", d("a factory"), True), ((T1,), "fac", d("a factory"), False)]
     if events != exp:
         bad = next((i for i, (x, y) in enumerate(zip(events, exp)) if x != y), min(len(events), len(exp)))
@@ -364,7 +380,7 @@ KCOMP = Harness(
     title="publications made by components through the shortcuts: payload of the announcements on the application context",
     bound_text=lambda tier: "a child component 'leaf' / 'leaf/special' publishes in prepare() or start(): a default-named resource, a two-type explicitly named one and a factory, "
     "with or without descriptions; then the factory's resource is generated from the application context",
-    oracle="exactly four events on the application context, in order, carrying the registered types, the (remapped) name, the description and is_factory",
+    oracle="exactly six events on the application context (incl. the generation triggered by a component's optional lookup of an application factory), in order, carrying the registered types, the (remapped) name, the description and is_factory",
     outside="-",
     stubs=STUBS_COMMON,
 )
